@@ -115,6 +115,15 @@ Theorem C18_decision_inputs_partial :
 Proof. exact decision_inputs_hold. Qed.
 Print Assumptions C18_decision_inputs_partial.
 
+(* the environment does not decide what is compiled or what is left behind (T0, PARTIAL): relative
+   imports of a file are resolved against that file's directory, never the working directory;
+   Renderer.render writes unconditionally (reads nothing of the output directory) *)
+Theorem C18_environment_decisions_partial :
+  (forall f, import_base true f = 0) /\ import_base false true = 1 /\ import_base false false = 2 /\
+  render_writes_unconditionally = true.
+Proof. exact environment_decisions. Qed.
+Print Assumptions C18_environment_decisions_partial.
+
 (* ---- each precondition is needed: the decorators alone are not transparent ------------- *)
 (* a parent frozen before its child: the real cache_if_frozen returns a stale value (replayed on
    the real decorators, corpus/C18/undisciplined.json).  Not reachable through the parser. *)
